@@ -227,7 +227,7 @@ def det_case(ctx, r):
         ctx.violation(sub, "fit-exception", f"{label}: fit raised {type(ex).__name__}: {ex}", r)
         return
 
-    def want_default():
+    def want_default(n=n):
         T = type(d)
         if det == "PELT":
             return "penalty_", 2 * p * np.log(n), T.get_default_penalty(n, p), kw["penalty_scale"]
@@ -261,6 +261,23 @@ def det_case(ctx, r):
                               f"{getattr(d, attr)} after predict on X2[{X2.shape[0]}x{p}]", r)
         except Exception as ex:
             ctx.stat(f"predict_exceptions[{type(ex).__name__}]")
+        # after update(new rows) the training data are the old and the new rows together
+        try:
+            import pandas as pd
+
+            du = build(spec).fit(pd.DataFrame(X))
+            n2 = X2.shape[0]
+            for j in (1, 2):
+                du.update(pd.DataFrame(X2, index=pd.RangeIndex(n + (j - 1) * n2, n + j * n2)))
+                _, f_u, pub_u, _ = want_default(n + j * n2)
+                ctx.stat("update_formula_checks")
+                if not (_eq(getattr(du, attr), scale * f_u) and _eq(getattr(du, attr), scale * pub_u)):
+                    ctx.violation(sub, "formula-after-update", f"{label}: after update #{j} with {n2} new rows "
+                                  f"{attr}={getattr(du, attr)} != scale x default for the {n + j * n2} training "
+                                  f"rows = {scale * f_u}", r)
+                    break
+        except Exception as ex:
+            ctx.violation(sub, "update-exception", f"{label}: update raised {type(ex).__name__}: {ex}", r)
         # proportional to the scale
         skey = [k for k in kw if k in ("penalty_scale", "threshold_scale", "collective_penalty_scale")][0]
         try:
